@@ -309,7 +309,7 @@ func run(c *h.Ctx, cs Case) {
 
 func draw(t *rapid.T) Case {
 	cfg := tok.GenCfg{Algs: keys.AllAlgs, ExtremeTime: true, NoTopNull: true,
-		Values: val.Cfg{Depth: 3, MaxLen: 3, SafeInts: true, Keys: []string{"a", "b", "aa", "x", "é", "with space", "zz"}}}
+		Values: val.Cfg{Depth: 3, MaxLen: 3, SafeInts: true, Big: true, Keys: []string{"a", "b", "aa", "x", "é", "with space", "zz"}}}
 	return Case{Tok: tok.Gen(t, cfg)}
 }
 
